@@ -603,6 +603,13 @@ def subscript(eng, base, idx, node):
     if isinstance(b, VChunks):
         raise OutOfSubset(node, "index into chunk list")
     if isinstance(b, VOpaque):
+        # item number i of an untracked (unmodified) sequence is the ghost elem(seq, i): the same item every time it is
+        # read, in code and in specifications; the read itself may still raise
+        it = as_int(eng, idx)
+        if it is not None:
+            if not eng.spec:
+                eng.opaque_call("<getitem of opaque>", [], node, havoc_args=False)
+            return VOpaque(elem_f(b.t, it), tag="item")
         if eng.spec:
             return VOpaque(tag="item")
         return eng.opaque_call("<getitem of opaque>", [], node, havoc_args=False)
